@@ -176,7 +176,7 @@ def rand_name(rng):
     return b".".join(small_label(rng) for _ in range(rng.choice([1, 2, 3])))
 
 
-def gen_scenario(rng, focus, client=None):
+def gen_scenario(rng, focus, client=None, variant=0):
     client = client or rng.choice(CLIENTS)
     qt, life = 300, 1050
     strategy = "udp"
@@ -200,6 +200,8 @@ def gen_scenario(rng, focus, client=None):
         qs = [mk(name=nm, qtype=rng.choice([1, 28, 255, 0, 65535, rng.randrange(65536)]), qclass=rng.choice([1, 3, 255, 0, 65535]))]
         if rng.random() < 0.2:
             buf = rng.choice([100, 511, 512, 513])
+        elif rng.random() < 0.2:
+            buf = rng.choice([65535, 65536, 65537, 70000])
     elif focus == "udpfilter":
         items = []
         t = 0
@@ -242,26 +244,31 @@ def gen_scenario(rng, focus, client=None):
             mode = "full"
         qs = [mk(tcp=(rng.choice([0, 0, 40]), mode))]
     elif focus == "timing":
-        qt = rng.choice([300, 300, None])
-        r = rng.random()
-        if r < 0.25:
-            qs = [mk(udp=[])]                                     # silence
-        elif r < 0.5:
-            k = rng.choice([1, 2, 3])
-            qs = [mk(udp=[[]] * k + [[(20, "resp")]])]            # answer after k timeouts
-        elif r < 0.62:
-            # a burst of junk around the end of the first attempt (1 ms apart), answer in the second attempt
-            att = [(d, "J" + rng.choice(JUNK)) for d in range(270, 330, 1)]
-            qs = [mk(udp=[att, [(120, "resp")]])]
-        elif r < 0.75:
-            # junk spread over a whole attempt (every 25 ms), then silence / answer
-            att = [(d, "J" + rng.choice(JUNK)) for d in range(0, 290, 25)]
-            qs = [mk(udp=[att, att, [(30, "resp")]] if rng.random() < 0.5 else [att] * 5)]
-        else:
-            strategy = "tcp"
-            qs = [mk(tcp=(0, rng.choice(["stall:0", "stall:1", "stall:5", "drip:60", "drip:15", "full"])))]
-        if qt is None and strategy == "udp":
-            qs[0].udp = qs[0].udp[:1] if qs[0].udp and rng.random() < 0.5 else []
+        # a fixed catalogue of timing patterns, each exercised by every client (index = variant)
+        qt = 300
+        jk = lambda: "J" + rng.choice(JUNK)
+        burst = [(d, jk()) for d in range(270, 330, 1)]
+        spread = [(d, jk()) for d in range(0, 290, 25)]
+        pats = [
+            ("silence", "udp", 300, [], (0, "full")),
+            ("silence-noretry", "udp", None, [], (0, "full")),
+            ("answer-after-1", "udp", 300, [[], [(20, "resp")]], (0, "full")),
+            ("answer-after-2", "udp", 300, [[], [], [(20, "resp")]], (0, "full")),
+            ("answer-after-3", "udp", 300, [[], [], [], [(20, "resp")]], (0, "full")),
+            ("late-answer-noretry", "udp", None, [[(700, "resp")]], (0, "full")),
+            ("boundary-burst", "udp", 300, [burst, [(120, "resp")]], (0, "full")),
+            ("junk-then-answer", "udp", 300, [spread, spread, [(30, "resp")]], (0, "full")),
+            ("junk-forever", "udp", 300, [spread] * 5, (0, "full")),
+            ("tc-then-tcp-stall", "udp", 300, [[(20, "resptc")]], (0, "stall:2")),
+            ("tcp-stall-0", "tcp", 300, [], (0, "stall:0")),
+            ("tcp-stall-prefix", "tcp", 300, [], (0, "stall:2")),
+            ("tcp-late-prefix-stall", "tcp", 300, [], (600, "stall:2")),
+            ("tcp-late-prefix-stall-5", "tcp", 300, [], (500, "stall:7")),
+            ("tcp-drip-60", "tcp", 300, [], (0, "drip:60")),
+            ("tcp-drip-15", "tcp", 300, [], (0, "drip:15")),
+        ]
+        nm_, strategy, qt, udp_, tcp_ = pats[variant % len(pats)]
+        qs = [mk(udp=udp_, tcp=tcp_)]
     elif focus == "history" and rng.random() < 0.25:
         # a longer response first, then a shorter one that announces more records than it carries:
         # stale bytes of the first must not be parsed as part of the second
